@@ -7,6 +7,7 @@ property itself (same values before/after) is evaluated on the implementation's 
 Oracle-only part (validation): the other refactorings of the property on corpus models (see corpus_*)."""
 import json
 import random
+import re
 from fractions import Fraction as F
 
 import sympy
@@ -120,7 +121,7 @@ def gen_spec(rng):
     for th in THETAS:
         if rng.random() < 0.2:
             fix[th] = rng.choice(INITS)
-    rv = rng.choice(['sep', 'sep', 'joint3', 'joint2'])
+    rv = rng.choice(['sep', 'sep', 'joint3', 'joint2', 'iov', 'iovfirst'])
     if rng.random() < 0.25:
         if rv == 'sep':
             fix[rng.choice(['OM1', 'OM2', 'OM3'])] = 0.0
@@ -132,7 +133,8 @@ def gen_spec(rng):
         fix.setdefault(rng.choice(['OM1', 'OM2', 'OM3']), 0.5)
     leaves = list(LEAVES)
     if rng.random() < 0.15:                     # statements that mention variance parameters (W = sqrt(SIGMA))
-        leaves += ['SI1'] + {'sep': ['OM1', 'OM3'], 'joint2': ['OM12', 'OM3'], 'joint3': ['OM12', 'OM23']}[rv]
+        leaves += ['SI1'] + {'sep': ['OM1', 'OM3'], 'joint2': ['OM12', 'OM3'], 'joint3': ['OM12', 'OM23'],
+                             'iov': ['OM1', 'OM2'], 'iovfirst': ['OM1', 'OM2']}[rv]
     stmts, defined = [], []
     ode_at = rng.randrange(1, n) if rng.random() < 0.3 and n >= 4 else None
     pool = VARS[:-1]
@@ -211,9 +213,11 @@ def build_model(spec):
     S = Expr.symbol
     fix = spec.get('fix', {})
     rv = spec.get('rvs', 'sep')
-    omegas = {'sep': ['OM1', 'OM2', 'OM3'], 'joint3': OMEGAS, 'joint2': ['OM1', 'OM2', 'OM3', 'OM12']}[rv]
+    omegas = {'sep': ['OM1', 'OM2', 'OM3'], 'joint3': OMEGAS, 'joint2': ['OM1', 'OM2', 'OM3', 'OM12'],
+              'iov': ['OM1', 'OM2', 'OM3'], 'iovfirst': ['OM1', 'OM2', 'OM3']}[rv]
+    sigmas = SIGMAS + (['SI2'] if spec.get('eps2') else [])
     plist = []
-    for n in THETAS + omegas + SIGMAS:
+    for n in THETAS + omegas + sigmas:
         if n in fix:
             plist.append(Parameter.create(n, fix[n], fix=True))
         else:
@@ -221,6 +225,14 @@ def build_model(spec):
     params = Parameters.create(plist)
     if rv == 'sep':
         dists = [NormalDistribution.create(f'ETA{i}', 'iiv', 0, S(f'OM{i}')) for i in (1, 2, 3)]
+    elif rv == 'iov':          # one IIV eta, two occasions of one IOV eta ($OMEGA BLOCK(1) SAME)
+        dists = [NormalDistribution.create('ETA1', 'iiv', 0, S('OM1')),
+                 NormalDistribution.create('ETA2', 'iov', 0, S('OM2')),
+                 NormalDistribution.create('ETA3', 'iov', 0, S('OM2'))]
+    elif rv == 'iovfirst':     # etas declared in IOV-first order
+        dists = [NormalDistribution.create('ETA1', 'iov', 0, S('OM1')),
+                 NormalDistribution.create('ETA2', 'iiv', 0, S('OM2')),
+                 NormalDistribution.create('ETA3', 'iov', 0, S('OM1'))]
     elif rv == 'joint3':
         dists = [JointNormalDistribution.create(
             ETAS, 'iiv', [0, 0, 0],
@@ -230,6 +242,8 @@ def build_model(spec):
                                                 [[S('OM1'), S('OM12')], [S('OM12'), S('OM2')]]),
                  NormalDistribution.create('ETA3', 'iiv', 0, S('OM3'))]
     dists.append(NormalDistribution.create('EPS1', 'ruv', 0, S('SI1')))
+    if spec.get('eps2'):
+        dists.append(NormalDistribution.create('EPS2', 'ruv', 0, S('SI2')))
     rvs = RandomVariables.create(dists)
     di = DataInfo.create(COLS)
     out = []
@@ -436,7 +450,9 @@ def observe(spec, points_rng, mods=None):
             + "\n  " + decl + "\n  " + clean + "\n  " + ct.lst(rens) + "\n  "
             + ct.lst([names.p(x) for x in model.parameters.names]) + " "
             + ct.lst([names.p(x) for x in model.random_variables.names]) + " "
-            + ct.lst([rdist_term(d, names) for d in model.random_variables]) + "\n  " + unused + "\n  "
+            + ct.lst([rdist_term(d, names) for d in model.random_variables]) + "\n  "
+            + ct.lst([names.p(str(opaque(x))) for x in sorted(model.statements.free_symbols, key=str)]) + "\n  "
+            + unused + "\n  "
             + ct.lst([names.p(x) for x in model.random_variables.epsilons.names]) + " "
             + ct.lst([names.p(x) for x in model.random_variables.etas.names]) + "\n  " + "\n  ".join(extr) + "\n  "
             + ct.lst([sc.env(p, names) for p in pts]) + ")")
@@ -511,6 +527,15 @@ def finding_probes(ctx):
     for f in ctx.findings:
         if f.get('status') != 'open':
             continue
+        if 'corpus' in f['witness']:
+            term, info = observe_pair(f['witness']['corpus'], random.Random('w'), corpus_dir(ctx))
+            t = info.get('reparse') if f['witness'].get('reparse') else term
+            tags = set(ctx.run_cases('finding-' + f['id'], IMPORTS, 'pcase', [t], 'verdict_pair')[0]) if t else set()
+            if f['expect_tag'] in tags:
+                ctx.known(f['id'])
+            else:
+                ctx.notes.append(f"finding_not_reproduced {f['id']} (tags {sorted(tags)})")
+            continue
         kept, verdicts, _, _ = run_specs(ctx, [f['witness']], 'finding-' + f['id'], quiet=True)
         tags = set(verdicts[0]) if verdicts else set()
         need_absent, causes = ORACLE.get(f['expect_tag'], (None, []))
@@ -529,14 +554,41 @@ OTAGS = {33: 'make_declarative / cleanup_model raises ValueError on a corpus mod
          32: 'refactoring drops the definition of a dependent variable on a corpus model'}
 
 
-def corpus_starts():
-    from pharmpy.modeling import create_basic_pk_model, load_example_model
-    return {
+CUTOFF_VARIANTS = {'pheno_le5': '.LE.5', 'pheno_ge7': '.GE.7', 'pheno_eq6': '.EQ.6', 'pheno_ne4': '.NE.4',
+                   'pheno_gt3': '.GT.3'}
+REGENERATING = ['make_declarative', 'cleanup_model', 'mu_reference_model', 'convert_model_generic_nonmem']
+
+
+def corpus_dir(ctx):
+    """pheno with `<=`, `>=`, `==`, `!=`, `>` cut-offs on the integer-valued covariate APGR, written next to a copy of
+    the example dataset (under the run directory of this check)."""
+    import shutil
+    import pharmpy
+    from pathlib import Path
+    d = ctx.rundir / 'corpus'
+    if not d.exists():
+        d.mkdir(parents=True)
+        ex = Path(pharmpy.__file__).parent / 'internals' / 'example_models'
+        for f in ('pheno.dta', 'pheno.datainfo'):
+            shutil.copy(ex / f, d / f)
+        text = (ex / 'pheno.mod').read_text()
+        assert 'IF(APGR.LT.5)' in text
+        for name, op in CUTOFF_VARIANTS.items():
+            (d / f'{name}.mod').write_text(text.replace('IF(APGR.LT.5)', f'IF(APGR{op})'))
+    return d
+
+
+def corpus_starts(cdir=None):
+    from pharmpy.modeling import create_basic_pk_model, load_example_model, read_model
+    starts = {
         'pheno': lambda: load_example_model('pheno'),
         'moxo': lambda: load_example_model('moxo'),
         'basic_iv': lambda: create_basic_pk_model('iv'),
         'basic_oral': lambda: create_basic_pk_model('oral'),
     }
+    for name in CUTOFF_VARIANTS:
+        starts[name] = (lambda n=name: read_model(cdir / f'{n}.mod'))
+    return starts
 
 
 def corpus_steps():
@@ -609,13 +661,38 @@ def corpus_refactorings():
 def gen_history(rng):
     steps = sorted(corpus_steps())
     k = rng.choice([0, 1, 1, 2, 2, 3])
-    return {'start': rng.choice(sorted(corpus_starts())), 'history': [rng.choice(steps) for _ in range(k)],
+    return {'start': rng.choice(['pheno', 'moxo', 'basic_iv', 'basic_oral'] + sorted(CUTOFF_VARIANTS)), 'history': [rng.choice(steps) for _ in range(k)],
             'refactoring': rng.choice(sorted(corpus_refactorings()))}
 
 
-def observe_pair(hspec, prng):
-    """Returns (term, info) or raises Skip-like exceptions.  info['error'] set when the refactoring raised."""
-    starts, steps, refs = corpus_starts(), corpus_steps(), corpus_refactorings()
+def cutoff_candidates(models):
+    """column -> values that hit the numeric constants of the conditions it occurs in exactly (and +-1)"""
+    from sympy.core.relational import Relational
+    from pharmpy.model import Assignment
+    cand = {}
+    for m in models:
+        cols = set(m.datainfo.names)
+        for st in m.statements:
+            if not isinstance(st, Assignment):
+                continue
+            for rel in sc.to_sympy(st.expression).atoms(Relational):
+                nums = [x for x in rel.atoms(sympy.Number) if x.is_Rational]
+                for sym in rel.free_symbols:
+                    if sym.name in cols:
+                        for x in nums:
+                            q = F(int(x.p), int(x.q))
+                            cand.setdefault(sym.name, [])
+                            for v in (q, q - 1, q + 1):
+                                if v not in cand[sym.name]:
+                                    cand[sym.name].append(v)
+    return cand
+
+
+def observe_pair(hspec, prng, cdir=None):
+    """Returns (term, info); info['error'] set when the refactoring raised; info['reparse'] = a second term comparing
+    the refactored model with read_model_from_string(refactored.code) (NONMEM models only)."""
+    from pharmpy.modeling import read_model_from_string
+    starts, steps, refs = corpus_starts(cdir), corpus_steps(), corpus_refactorings()
     m = starts[hspec['start']]()
     applied = []
     for st in hspec['history']:
@@ -624,9 +701,12 @@ def observe_pair(hspec, prng):
             applied.append(st)
         except Exception:
             pass                      # the history step is not applicable to this model: skip the step
-    info = {'applied': applied, 'error': None, 'n': len(m.statements)}
+    info = {'applied': applied, 'error': None, 'n': len(m.statements), 'reparse': None}
     info['fixed_variance'] = any(p.fix and p.init != 0 and p.name in m.random_variables.parameter_names
                                  for p in m.parameters)
+    # NONMEM scaling factor defined as a pure alias (S1 = VC): cleanup_model inlines it away
+    info['scaling_alias'] = any(hasattr(st, 'symbol') and re.fullmatch(r'S\d+', str(st.symbol))
+                                and st.expression.is_symbol() for st in m.statements)
     names = ct.Names()
     try:
         m2 = refs[hspec['refactoring']](m)
@@ -636,8 +716,19 @@ def observe_pair(hspec, prng):
             before = stms_term(m.statements, names)
             return f"(mkP {before} [] [] [] true [])", info
         return None, info
+    m3 = None
+    if 'nonmem' in type(m2).__module__:
+        try:
+            m3 = read_model_from_string(m2.code)
+            if (m3.parameters.names != m2.parameters.names
+                    or m3.random_variables.names != m2.random_variables.names):
+                info['reparse_skipped'] = 'names differ after re-reading'
+                m3 = None
+        except Exception as e:
+            info['reparse_error'] = f'{type(e).__name__}: {e}'[:200]
     before = stms_term(m.statements, names)
     after = stms_term(m2.statements, names)
+    reparsed = stms_term(m3.statements, names) if m3 is not None else None
     ren = []
     if hspec['refactoring'].startswith('greekify'):
         for a, b in zip(m.parameters.names, m2.parameters.names):
@@ -655,14 +746,25 @@ def observe_pair(hspec, prng):
         names.get(a), names.get(b)
     allnames = [names.name(i) for i in range(1, names.next)]
     newnames = {b for _, b in ren}
+    cand = cutoff_candidates([m, m2] + ([m3] if m3 is not None else []))
+    info['cutoff_columns'] = sorted(cand)
     pts = []
-    for _ in range(10):
+    for i in range(12):
         pt = {n: (prng.choice(SMALL) if n in rvn else prng.choice(POW2)) for n in allnames if n not in newnames}
+        for col, vals in cand.items():      # sample points that HIT the cut-off values exactly (and +-1)
+            if col in pt:
+                pt[col] = vals[i % len(vals)]
         pt.update({k: v for k, v in pins.items() if k in pt})
         pts.append(pt)
     outs = [str(opaque(y)) for y in m.dependent_variables]
+    envs = ct.lst([sc.env(pt, names) for pt in pts])
     term = ("(mkP " + before + "\n  " + after + "\n  " + ct.lst([ct.pair(names.p(a), names.p(b)) for a, b in ren])
-            + " " + ct.lst([names.p(y) for y in outs]) + " false\n  " + ct.lst([sc.env(pt, names) for pt in pts]) + ")")
+            + " " + ct.lst([names.p(y) for y in outs]) + " false\n  " + envs + ")")
+    if reparsed is not None:
+        # the refactored model against the model its regenerated NM-TRAN code reads back to (same names: checked)
+        pts2 = [{ren_d.get(k, k): v for k, v in pt.items()} for pt in pts for ren_d in [dict(ren)]]
+        info['reparse'] = ("(mkP " + after + "\n  " + reparsed + "\n  [] " + ct.lst([names.p(dict(ren).get(y, y)) for y in outs])
+                           + " false\n  " + ct.lst([sc.env(pt, names) for pt in pts2]) + ")")
     info['changed_text'] = str(m.statements) != str(m2.statements)
     return term, info
 
@@ -671,18 +773,23 @@ def corpus_oracle(ctx, n):
     """Validation only: the refactorings that are not modelled, on corpus models reached by short histories;
     statements before / after are evaluated with the Coq evaluator (ODE amounts: position-sensitive oracle)."""
     prng = random.Random(f'{ctx.seed}-corpus-pts')
+    cdir = corpus_dir(ctx)
     hs = [gen_history(ctx.rng) for _ in range(n)]
-    # every refactoring at least once on the untouched start models
-    hs = [{'start': s, 'history': [], 'refactoring': r} for s in sorted(corpus_starts())
-          for r in sorted(corpus_refactorings())] + hs
+    # every refactoring at least once on the untouched start models; on the cut-off variants of pheno the
+    # refactorings that regenerate the NM-TRAN code of the conditional statement
+    base = ['pheno', 'moxo', 'basic_iv', 'basic_oral']
+    hs = ([{'start': s, 'history': [], 'refactoring': r} for s in base for r in sorted(corpus_refactorings())]
+          + [{'start': s, 'history': [], 'refactoring': r} for s in sorted(CUTOFF_VARIANTS) for r in REGENERATING]
+          + hs)
     hs.append({'start': 'pheno', 'history': ['fix_first_sigma'], 'refactoring': 'cleanup_model'})
     hs.append({'start': 'pheno', 'history': ['add_peripheral_compartment'], 'refactoring': 'cleanup_model'})
     terms, kept, infos = [], [], []
     stats = {'refactoring_raised': {}, 'unconvertible': 0, 'compared': 0, 'inconclusive': 0, 'dv_points_compared': 0,
-             'per_refactoring': {}, 'text_changed': 0, 'known': 0}
+             'per_refactoring': {}, 'text_changed': 0, 'known': 0, 'reparse_compared': 0, 'reparse_skipped': {},
+             'reparse_dv_points': 0, 'pairs_with_cutoff_points': 0}
     for h in hs:
         try:
-            term, info = observe_pair(h, prng)
+            term, info = observe_pair(h, prng, cdir)
         except sc.Unconvertible:
             stats['unconvertible'] += 1
             continue
@@ -733,8 +840,33 @@ def corpus_oracle(ctx, n):
             if t in tags:
                 ctx.violation(OTAGS[t] + f" ({h['refactoring']} after {info['applied']} on {h['start']})",
                               {'corpus': h, 'tags': sorted(tags)})
+    # the regenerated NM-TRAN code read back: eval(read_model_from_string(r(M).code)) == eval(r(M)) (== eval(M) above)
+    rp = [(h, info) for h, info in zip(kept, infos) if info.get('reparse')]
+    for h, info in zip(kept, infos):
+        stats['pairs_with_cutoff_points'] += 1 if info.get('cutoff_columns') else 0
+        for k in ('reparse_skipped', 'reparse_error'):
+            if info.get(k):
+                key = k + ': ' + info[k][:50]
+                stats['reparse_skipped'][key] = stats['reparse_skipped'].get(key, 0) + 1
+    rverdicts = ctx.run_cases('reparse', IMPORTS, 'pcase', [info['reparse'] for _, info in rp], 'verdict_pair', shard=12)
+    for (h, info), v in zip(rp, rverdicts):
+        tags = set(v)
+        stats['reparse_dv_points'] += sum(t - 2000 for t in tags if t >= 2000)
+        if 1031 not in tags:
+            stats['reparse_compared'] += 1
+        if ({31, 32} & tags and h['refactoring'] == 'cleanup_model' and info.get('scaling_alias')
+                and ctx.open_finding('C07-CLEANUP-CODE-LOSES-SCALING')):
+            stats['known'] += 1
+            kh = ctx.coverage.setdefault('known_hits', {})
+            kh['C07-CLEANUP-CODE-LOSES-SCALING'] = kh.get('C07-CLEANUP-CODE-LOSES-SCALING', 0) + 1
+            continue
+        for t in (31, 32):
+            if t in tags:
+                ctx.violation('the NM-TRAN code regenerated by a refactoring does not read back to the same model '
+                              f"function ({h['refactoring']} after {info['applied']} on {h['start']})",
+                              {'corpus': h, 'reparse': True, 'tags': sorted(tags)})
     ctx.coverage['corpus_oracle'] = stats
-    return len(kept)
+    return len(kept) + len(rp)
 
 
 # ------------------------------------------------------------------ oracle-only: gradient extractors
@@ -755,8 +887,11 @@ def gen_grad_spec(rng):
         aff.append(v)
     stmts.append(['IPRED', f'({rng.choice(aff)})*({rng.choice(aff)}) + {free()}'])
     stmts.append(['W', f'{rng.choice(aff)} + {free(0)}'])
-    stmts.append(['Y', 'IPRED + W*EPS1'])
-    return {'stmts': stmts, 'fix': {}, 'rvs': rng.choice(['sep', 'joint3']), 'renames': []}
+    eps2 = rng.random() < 0.5
+    stmts.append(['Y', 'IPRED + W*EPS1 + (' + free(0) + ')*EPS2' if eps2 else 'IPRED + W*EPS1'])
+    # IIV-only, IOV etas (two occasions sharing an omega), etas declared IOV-first; one or two epsilons
+    return {'stmts': stmts, 'fix': {}, 'rvs': rng.choice(['sep', 'joint3', 'iov', 'iov', 'iovfirst', 'iovfirst']),
+            'renames': [], 'eps2': eps2}
 
 
 def observe_grad(spec, prng):
@@ -770,11 +905,13 @@ def observe_grad(spec, prng):
     epsg = calculate_epsilon_gradient_expression(model)
     etas, epss = model.random_variables.etas.names, model.random_variables.epsilons.names
     prog = stms_term(model.statements, names)
+    # entry i of the gradient is claimed to be the derivative w.r.t. the i-th eta / epsilon of the model
     t1 = ct.lst([ct.pair(names.p(n), cexpr(g, names)) for n, g in zip(etas, etag)])
     t2 = ct.lst([ct.pair(names.p(n), cexpr(g, names)) for n, g in zip(epss, epsg)])
+    counts = ct.tup(ct.pair(ct.nat(len(etas)), ct.nat(len(etag))), ct.pair(ct.nat(len(epss)), ct.nat(len(epsg))))
     allnames = [names.name(i) for i in range(1, names.next)]
     pts = [{n: prng.choice(VALUES) for n in allnames} for _ in range(6)]
-    return (f"(mkG {prog} {names.p('Y')} {ct.lst([names.p(e) for e in epss])}\n  {t1}\n  {t2}\n  "
+    return (f"(mkG {prog} {names.p('Y')} {ct.lst([names.p(e) for e in epss])}\n  {t1}\n  {t2}\n  {counts}\n  "
             + ct.lst([sc.env(pt, names) for pt in pts]) + ")")
 
 
@@ -793,10 +930,16 @@ def gradient_oracle(ctx, n):
     for spec, v in zip(specs, verdicts):
         pts += sum(t - 2000 for t in v if t >= 2000)
         for t, what in ((41, 'calculate_eta_gradient_expression differs from the exact central difference'),
-                        (42, 'calculate_epsilon_gradient_expression differs from the exact central difference')):
+                        (42, 'calculate_epsilon_gradient_expression differs from the exact central difference'),
+                        (43, 'calculate_eta_gradient_expression: number of entries differs from the number of etas'),
+                        (44, 'calculate_epsilon_gradient_expression: number of entries differs from the number of '
+                             'epsilons')):
             if t in v:
                 ctx.violation(what, {'grad_spec': spec, 'tags': v})
-    ctx.coverage['gradient_oracle'] = {'programs': len(specs), 'defined_points': pts}
+    ctx.coverage['gradient_oracle'] = {'programs': len(specs), 'defined_points': pts,
+                                       'layouts': {k: sum(1 for s in specs if s['rvs'] == k)
+                                                   for k in ('sep', 'joint3', 'iov', 'iovfirst')},
+                                       'two_epsilons': sum(1 for s in specs if s.get('eps2'))}
     return len(specs)
 
 
@@ -838,7 +981,7 @@ def run(ctx):
         'with_ode': sum(1 for s in kept if any(l == 'ODE' for l, _ in s['stmts'])),
         'with_fixed_theta': sum(1 for i in infos if i['fixed']),
         'with_nonrandom_rv': sum(1 for i in infos if i['nonrandom']),
-        'rv_layout': {k: sum(1 for s in kept if s.get('rvs') == k) for k in ('sep', 'joint2', 'joint3')},
+        'rv_layout': {k: sum(1 for s in kept if s.get('rvs') == k) for k in ('sep', 'joint2', 'joint3', 'iov', 'iovfirst')},
         'impl_errors': {k: sum(1 for i in infos for e in i['errors'] if e == k)
                         for k in sorted({e for i in infos for e in i['errors']})},
         'guard_no_stale_capture_false': sum(1 for v in verdicts if 201 in v),
@@ -862,10 +1005,12 @@ def run(ctx):
 def replay(ctx, rep):
     if 'corpus' in rep:
         prng = random.Random(f'{ctx.seed}-corpus-pts')
-        term, info = observe_pair(rep['corpus'], prng)
-        print('corpus', json.dumps(rep['corpus']), info)
+        term, info = observe_pair(rep['corpus'], prng, corpus_dir(ctx))
+        print('corpus', json.dumps(rep['corpus']), {k: v for k, v in info.items() if k != 'reparse'})
         if term is None:
             return 1
+        if rep.get('reparse'):
+            term = info['reparse']
         tags = ctx.run_cases('replay', IMPORTS, 'pcase', [term], 'verdict_pair')[0]
         print('tags', tags, [OTAGS.get(t, t) for t in tags])
         return 1 if any(t in OTAGS for t in tags) else 0
@@ -873,7 +1018,7 @@ def replay(ctx, rep):
         tags = ctx.run_cases('replay', IMPORTS, 'gcase', [observe_grad(rep['grad_spec'], random.Random('r'))],
                              'verdict_grad')[0]
         print('grad_spec', json.dumps(rep['grad_spec']), 'tags', tags)
-        return 1 if 41 in tags or 42 in tags else 0
+        return 1 if {41, 42, 43, 44} & set(tags) else 0
     spec = rep['spec']
     kept, verdicts, _, _ = run_specs(ctx, [spec], 'replay', quiet=True)
     tags = verdicts[0]
